@@ -130,6 +130,7 @@ def chains_by_name(us, specs, prefix='hist-chain'):
     out = []
     for k, spec in enumerate(specs):
         names = [spec, spec] if isinstance(spec, str) else list(spec)
+        shown = [n.lstrip('?') for n in names]
         sel, skip = [], False
         for n in names:
             opt = n.startswith('?')
@@ -142,7 +143,7 @@ def chains_by_name(us, specs, prefix='hist-chain'):
             sel.append(by[n])
         if skip:
             continue
-        out.append(chain('%s-%d-%s' % (prefix, k, '+'.join(names if len(set(names)) > 1 else names[:1])[:120]), sel))
+        out.append(chain('%s-%d-%s' % (prefix, k, '+'.join(shown if len(set(shown)) > 1 else shown[:1])[:120]), sel))
     return out
 
 
